@@ -256,6 +256,11 @@ pub fn gen_config(profile: Profile, run_seed: u64, index: u64) -> BCfg {
         }
         Profile::Outage => {
             c.script = 2;
+            if r.chance(50) {
+                // exact timing: time only advances in sleeps and reply latencies
+                c.step_cost_ns = 0;
+                c.delay_ppm = 0;
+            }
             c.phc = *r.pick(&[0u8, 1, 3, 3]);
             c.horizon_ns = r.range(30, 120) * SEC;
         }
